@@ -625,6 +625,33 @@ def tok_nonzero(t):
 
 
 # ---------------------------------------------------------------- C09: nested index vs stand-alone index
+def deep_nested_case(rng, name):
+    """root -> mid -> leaves -> securities; every stack gated by a calendar scheduler; commissions / whole units / spreads"""
+    import gen_backtest
+    from gen_engine import hx, dy
+    n = rng.randint(8, 18)
+    dates = gen_backtest.gen_dates(rng, n)
+    nt = rng.randint(2, 4)
+    tickers = list(range(1, nt + 1))
+    prices = [[t, gen_backtest.gen_price_col(rng, n, p_nan=0.0)] for t in tickers]
+    leaves = []
+    for j in range(rng.randint(1, 2)):
+        sub = rng.sample(tickers, rng.randint(1, nt))
+        leaves.append(["strat", 10 + j, False, [["sec", t, "sec", False, hx(1.0), "str"] for t in sub],
+                       [["runperiod", rng.choice(["daily", "weekly", "monthly"]), True, False, False],
+                        ["selectall", False, False], ["weighequally"], ["rebalance"]]])
+    lw = [[k[1], hx(rng.choice([0.25, 0.5, 0.375]))] for k in leaves]
+    mid = ["strat", 20, False, leaves, [["runperiod", rng.choice(["daily", "weekly"]), True, False, False],
+                                         ["weighspecified", lw], ["rebalance"]]]
+    root = ["strat", 30, False, [mid], [rng.choice([["runonce"], ["runperiod", "weekly", True, False, False]]),
+                                        ["weighspecified", [[20, hx(rng.choice([0.25, 0.5, 1.0]))]]], ["rebalance"]]]
+    comm = rng.choice([["none"], ["flat", hx(dy(rng, 1, 4, 4))], ["prop", hx(0.001953125)], ["pershare", hx(0.015625)]])
+    bidoffer = [[t, [hx(dy(rng, 0, 1, 8)) for _ in range(n)]] for t in tickers] if rng.random() < 0.3 else None
+    return {"name": name, "dates": dates, "intpos": rng.random() < 0.5, "comm": comm, "prices": prices, "bidoffer": bidoffer,
+            "coupons": None, "cost_long": None, "cost_short": None, "adata": [], "capital": hx(float(rng.choice([100000, 1000000]))),
+            "tree": root, "pyseed": 0}
+
+
 def nested_suite(run, scratch, seed, n):
     import backtest_corr
     import gen_backtest
@@ -658,6 +685,20 @@ def nested_suite(run, scratch, seed, n):
             alone["name"] = "%s_alone%d" % (c["name"], k[1])
             cases.append(alone)
             pairs.append((c["name"], k[1], alone["name"]))
+    # three-level trees: the compared child is itself a parent (settings must reach its own sub-strategies)
+    deep = 0
+    while deep < max(10, n // 4):
+        tries += 1
+        c = deep_nested_case(rng, "n%05d" % tries)
+        cases.append(c)
+        mid = c["tree"][3][0]
+        alone = dict(c)
+        alone["tree"] = mid
+        alone["capital"] = (1000000.0).hex()
+        alone["name"] = "%s_alone%d" % (c["name"], mid[1])
+        cases.append(alone)
+        pairs.append((c["name"], mid[1], alone["name"]))
+        deep += 1
     res = backtest_corr.run_cases(cases, scratch)
     by = {r[0]["name"]: r for r in res}
     tally = {"equal": 0, "drift": 0, "diff": 0}
